@@ -323,6 +323,8 @@ OPERANDS = [
     ('_arglikes', '*a, b=c'), ('_arglikes', 'a, **k'), ('_arglikes', ''), ('_withitems', '(a, b) as c'), ('_withitems', 'a, b'), ('_aliases', 'a as b, c.d as e'),
     ('_Assign_targets', 'a ='), ('_Assign_targets', 'a, b = c ='), ('_decorator_list', '@a.b'), ('_type_params', 'T: int, **P'), ('keyword', 'k=(a, b)'), ('withitem', '(a, b)'),
     ('_comprehensions', 'for a in b if c for d in e'), ('_comprehension_ifs', 'if (a, b)'),
+    ('expr', "{'a': x, **(r)}"), ('expr', '(f)(c)'), ('expr', '( f.g )(c, k=(v))'), ('expr', '[(a), (b.c)]'), ('expr', '{(1): (x)}'), ('expr', '(a) | (b)'), ('expr', '-(1)'), ('expr', '(1) + (2j)'),
+    ('pattern', '(a) | (b)'), ('pattern', '[(a), (*b)]') if False else ('pattern', '[(a), *b]'), ('pattern', '{1: (x), **r}'), ('pattern', 'C((a), k=(b))'), ('pattern', '(a as b)'),
     # non-ASCII text before closing delimiters / separators (byte offsets differ from columns)
     ('expr', "[a, 'ñ']"), ('expr', '{ñ, b}'), ('expr', "('é', ü)"), ('expr', "[\n 'ö',\n ñ]"), ('expr', "{'ключ': ñ, **é}"), ('expr', "f('ü', ñ=é)"), ('expr', 'ñ | é | ü'), ('expr', 'ä.ö.ü'),
     ('pattern', "[ñ, 'é']"), ('pattern', "{'ü': ñ, **é}"), ('pattern', 'Ç(ñ, é=ü)'), ('pattern', "'ñ' | é"), ('pattern', 'ñ as é'), ('arguments', 'ñ, *é, ü'), ('arguments', 'ñ, é'),
